@@ -36,17 +36,22 @@ type c12Layout struct {
 }
 
 func (l *c12Layout) Gap([]ast.Tok, int) string {
-	switch rapid.IntRange(0, 9).Draw(l.t, "gap") {
-	case 0:
+	switch rapid.IntRange(0, 39).Draw(l.t, "gap") {
+	case 0, 1, 2, 3:
 		l.feats["tab"] = true
 		return "\t"
-	case 1:
+	case 4, 5, 6, 7:
 		return "  "
+	case 8:
+		// a line far longer than a terminal is wide, with whatever follows far to the right
+		l.feats["line-longer-than-120-bytes"] = true
+		return strings.Repeat(" ", rapid.SampledFrom([]int{70, 125, 260}).Draw(l.t, "widegap"))
 	}
 	return " "
 }
 
-var c12Comments = []string{"# comment", "# é ü 日本語 →", "#", "# \"quoted\" 'text' { } ;", "#\t→\ttabs"}
+var c12Comments = []string{"# comment", "# é ü 日本語 →", "#", "# \"quoted\" 'text' { } ;", "#\t→\ttabs",
+	"# a comment that makes its line longer than any terminal is wide: " + strings.Repeat("lorem ipsum ", 12)}
 
 func (l *c12Layout) nl() string {
 	if l.crlf {
@@ -324,6 +329,12 @@ var c12MultiLine = []c12MLKit{
 	{"unknown $-variable as a call argument", "c12x = c11fun (\n  1 ,\n  «$nope»\n)", "runtime", false},
 	{"invalid regex in a match case", "c12x = match ( 1 ) {\n  2 => 3 ,\n  c12w => «\"a\" ~ \"(\"»\n}", "runtime", false},
 	{"calling null in an index expression", "c12x = [ 1 , 2 ] [\n  «c12nofn ( )»\n]", "runtime", false},
+	// one of several constructs of the same kind is at fault: not the first, not the last
+	{"invalid escape in the middle one of three quoted keys", "c12x = { \"a\" : 1 ,\n  «\"b\\q\"» : 2 ,\n  \"c\" : 3 }", "runtime", false},
+	{"invalid escape in the first of three quoted keys on one line", "c12x = { «\"a\\q\"» : 1 , \"bbbbbbbb\" : 2 , \"cccccccccccc\" : 3 }", "runtime", false},
+	{"invalid escape in the middle one of three strings", "c12x = [ \"a\" ,\n  «\"b\\q\"» ,\n  \"c\" ]", "runtime", false},
+	{"invalid escape in the first of two member values", "c12x = { a : «\"\\q\"» ,\n  b : \"fine\" ,\n  \"c\" : \"fine\" }", "runtime", false},
+	{"division by zero in the first of three call arguments", "c12x = c11fun (\n  «1 / 0» ,\n  2 / 1 ,\n  3 / 1\n)", "runtime", false},
 	{"illegal character in an array literal", "c12x = [ 1 ,\n  2 «@» ,\n  3 ]", "syntax", true},
 	{"illegal character in an object literal", "c12x = { a : 1 ,\n\n  b «?» : 2 }", "syntax", true},
 	{"invalid assignment in a block", "if ( true ) {\n  c12y = 1\n  «1 = 2»\n}", "syntax", false},
